@@ -237,25 +237,34 @@ Definition run_step (c : content) (s : step) (st : dstate) : W (option dirent * 
   | St_soft_errors => d <- sec_raw (raw_type s) (ic_soft c) ;; ret (Some d, st)
   end.
 
-(* DirSection::write_to_file(Some(dirent)): set_value_at(slot curr_idx), curr_idx += 1 *)
-Fixpoint run_plan (c : content) (dir_base : nat) (plan : list step) (idx : nat) (st : dstate) (acc : list dirent)
-  : W (list dirent) :=
+(* ghost: the state at a boundary between two destination calls, with the directory entries handed over so far *)
+Definition w_get : W wst := fun s => Ok (s, s).
+Definition snap := (wst * list dirent)%type.
+
+(* DirSection::write_to_file(Some(dirent)): the new bytes are flushed (snapshot: what the destination then holds), then
+   set_value_at(slot curr_idx), curr_idx += 1, and the entry is written (second snapshot) *)
+Fixpoint run_plan (c : content) (dir_base : nat) (plan : list step) (idx : nat) (st : dstate) (acc : list dirent) (log : list snap)
+  : W (list dirent * list snap) :=
   match plan with
-  | [] => ret (rev acc)
+  | [] => ret (rev acc, rev log)
   | s :: rest =>
       r <- run_step c s st ;;
+      s1 <- w_get ;;
       match fst r with
-      | Some d => w_patch (dir_base + DIRENT_SZ * idx) (enc_dirent d) ;;; run_plan c dir_base rest (S idx) (snd r) (d :: acc)
-      | None => run_plan c dir_base rest idx (snd r) acc
+      | Some d => w_patch (dir_base + DIRENT_SZ * idx) (enc_dirent d) ;;;
+                  s2 <- w_get ;;
+                  run_plan c dir_base rest (S idx) (snd r) (d :: acc) ((s2, d :: acc) :: (s1, acc) :: log)
+      | None => run_plan c dir_base rest idx (snd r) acc ((s1, acc) :: log)
       end
   end.
 
 (* generate_dump: header slot, directory array, header value, then the plan (per-dump state reset first) *)
-Definition image (c : content) : W (list dirent) :=
+Definition image (c : content) : W (list dirent * list snap) :=
   hd <- w_alloc KHeader (repeat 0%N HEADER_SZ) ;;
   dir <- w_alloc KDirectory (repeat 0%N (DIRENT_SZ * NUM_DIRS)) ;;
   w_patch (N.to_nat (l_rva hd)) (enc_header (ic_time c) (l_rva dir)) ;;;
-  run_plan c (N.to_nat (l_rva dir)) (map fst stream_plan) 0 ([], CNone) [].
+  s0 <- w_get ;;
+  run_plan c (N.to_nat (l_rva dir)) (map fst stream_plan) 0 ([], CNone) [] [(s0, [])].
 
 Definition image_bytes (c : content) : option bytes :=
   match image c empty_wst with Ok (_, s) => Some (w_buf s) | _ => None end.
